@@ -131,7 +131,7 @@ package refopts
 // shows that all 17 options are registered.
 //@ spec fvIs(v Iface, inc bool, pat string, re bool) bool = dyntype(v, "*refopts.filterValue") && isInc(unbox(v, "*refopts.filterValue").combiner) == inc && (dyntype(unbox(v, "*refopts.filterValue").combiner, "git.include") || dyntype(unbox(v, "*refopts.filterValue").combiner, "git.exclude")) && unbox(v, "*refopts.filterValue").pattern == pat && unbox(v, "*refopts.filterValue").regexp == re
 //@ spec optionTable(v Iface, name string) bool = (name == "include" ==> fvIs(v, true, "", false)) && (name == "include-regexp" ==> fvIs(v, true, "", true)) && (name == "exclude" ==> fvIs(v, false, "", false)) && (name == "exclude-regexp" ==> fvIs(v, false, "", true)) && (name == "branches" ==> fvIs(v, true, "refs/heads", false)) && (name == "no-branches" ==> fvIs(v, false, "refs/heads", false)) && (name == "tags" ==> fvIs(v, true, "refs/tags", false)) && (name == "no-tags" ==> fvIs(v, false, "refs/tags", false)) && (name == "remotes" ==> fvIs(v, true, "refs/remotes", false)) && (name == "no-remotes" ==> fvIs(v, false, "refs/remotes", false)) && (name == "notes" ==> fvIs(v, true, "refs/notes", false)) && (name == "no-notes" ==> fvIs(v, false, "refs/notes", false)) && (name == "stash" ==> fvIs(v, true, "refs/stash", true)) && (name == "no-stash" ==> fvIs(v, false, "refs/stash", true)) && (name == "refgroup" ==> dyntype(v, "*refopts.filterGroupValue"))
-//@ spec knownOption(name string) bool = name == "include" || name == "include-regexp" || name == "exclude" || name == "exclude-regexp" || name == "branches" || name == "no-branches" || name == "tags" || name == "no-tags" || name == "remotes" || name == "no-remotes" || name == "notes" || name == "no-notes" || name == "stash" || name == "no-stash" || name == "refgroup"
+//@ spec knownOption(name string) bool = name == "include" || name == "include-regexp" || name == "exclude" || name == "exclude-regexp" || name == "branches" || name == "no-branches" || name == "tags" || name == "no-tags" || name == "remotes" || name == "no-remotes" || name == "notes" || name == "no-notes" || name == "stash" || name == "no-stash" || name == "refgroup" || name == "no-verbose" || name == "threshold" || name == "critical" || name == "names" || name == "no-progress"
 
 //@ assumed func github.com/spf13/pflag:(*FlagSet).VarPF
 //@   trust A-PFLAG
